@@ -419,21 +419,22 @@ def anisotropy_parameter(theta, intensity, theta_ranges=None, mode='reject'):
         intensity = intensity[subtheta]
 
     # fit angular intensity distribution
-    if mode == 'bound':
-        # (with tight tolerances: the bounded solver approaches a solution
-        # lying on a bound slowly and otherwise stops up to ~1e-2 short)
-        bounds = {'bounds': ([-1, -np.inf], [2, np.inf]),
-                  'ftol': 1e-15, 'xtol': 1e-15, 'gtol': 1e-15}
-    else:
-        bounds = {}
+    bounds = {'bounds': ([-1, -np.inf], [2, np.inf]),
+              'ftol': 1e-15, 'xtol': 1e-15, 'gtol': 1e-15}
     # the optimizer has absolute tolerances, so fit data of order unity
     scale = np.abs(intensity).max() if len(intensity) else 1.0
     if scale == 0 or not np.isfinite(scale):
         scale = 1.0
     try:
         # using 'trf' because default 'lm' is broken, see SciPy issue #21995
-        popt, pcov = curve_fit(PAD, theta, intensity / scale, method='trf',
-                               **bounds)
+        popt, pcov = curve_fit(PAD, theta, intensity / scale, method='trf')
+        if mode == 'bound' and not -1 <= popt[0] <= 2:
+            # refit within the physical range, starting from its nearest
+            # point (the bounded solver alone approaches a solution lying on
+            # a bound slowly and can stop far from it)
+            p0 = [min(max(popt[0], -1.0), 2.0), popt[1]]
+            popt, pcov = curve_fit(PAD, theta, intensity / scale, p0=p0,
+                                   method='trf', **bounds)
         beta, amplitude = popt
         error_beta, error_amplitude = np.sqrt(np.diag(pcov))
         amplitude *= scale
